@@ -263,6 +263,20 @@ def play(ctx, hist, cm, gl, cla, arguments, model_state):
             if not partition_ok(new_state):
                 problems.append(("phase-inv", f"{op} handed on a state whose membership does not match its labels",
                                  {"site": "phase-inv", "op": op}))
+        if op in ("repop", "stats", "opt", "relabel") and new_state is not None and new_state is not st and input_ok:
+            # failing-input search for an aliased phase output: if the output shares a cluster object with the
+            # input, relabelling the output (on a structure-preserving copy of both) breaks the input's partition
+            if {id(c) for c in new_state.clusters} & {id(c) for c in st.clusters}:
+                import copy as _copy
+                with tu.quiet():
+                    st2, out2 = _copy.deepcopy((st, new_state))
+                    rot = [(int(x) + 1) % K for x in out2.point_labels]
+                    out2.point_labels = rot
+                if not partition_ok(st2):
+                    problems.append(("phase-output-aliases-input",
+                                     f"{op} returned a state sharing a cluster object with the state it was given: assigning "
+                                     f"labels to the returned state leaves the given state's membership not matching its labels",
+                                     {"site": "phase-output-aliases-input", "op": op}))
         if op == "assign" and (changed or input_ok) and not partition_ok(st):
             problems.append(("assign-inv", "membership not re-derived by the label setter", {"site": "assign-inv"}))
         dumps.append(dump(states))
